@@ -456,6 +456,10 @@ class FakeSocket:
             # first exchange of this call on a connection established earlier: a contact as well
             self.contact_call = net.ctx.call
             net.contacts.append((net.clock.now() if net.clock else None, self.addr_key(), health == "up", net.ctx.call))
+        if health == "reset_on_recv":
+            # the peer takes the request and resets the connection when the reply is read (a crashed worker behind a proxy)
+            self.faulted = True
+            return None
         if health != "up":
             self.faulted = True
             raise net.health_exc("reset")
